@@ -21,13 +21,13 @@ RULE = ('reference files of 1-3 and query files of 1-8 degenerate molecules (one
 ASSUMPTIONS = ['"syntactically valid CMAP" = header lines, one row per label plus one end-marker row per molecule, numeric '
                'fields; minPeakDistance is kept >= primaryResolution as the property states',
                'query ids are unique within a file']
-MINIMUMS = {'runs': {'quick': 500, 'thorough': 8000}, 'cli-runs': {'quick': 40, 'thorough': 600},
+MINIMUMS = {'runs': {'quick': 400, 'thorough': 8000}, 'cli-runs': {'quick': 30, 'thorough': 600},
             'files-read-back': {'quick': 800, 'thorough': 12000}, 'header-only-files': {'quick': 50, 'thorough': 800},
-            'isolation-comparisons': {'quick': 60, 'thorough': 900}, 'queries-without-any-seed': {'quick': 100, 'thorough': 1500}}
+            'isolation-comparisons': {'quick': 40, 'thorough': 900}, 'queries-without-any-seed': {'quick': 100, 'thorough': 1500}}
 
 
 def plan(tier, seed):
-    n, c = (16, 40) if tier == 'quick' else (64, 160)
+    n, c = (16, 30) if tier == 'quick' else (64, 160)
     return [{'name': 's%d' % i, 'kind': 'mix', 'seed': seed, 'shard': i, 'cases': c} for i in range(n)]
 
 
